@@ -34,6 +34,9 @@ pub struct Wire {
     /// the io::ErrorKind of injected read / write errors
     pub read_err_kind: io::ErrorKind,
     pub write_err_kind: io::ErrorKind,
+    /// the kind of a transient read error (`WouldBlock` / `Interrupted` only ever appear as transient
+    /// errors: a transport that answers them for ever does not exist, and a client may retry them)
+    pub transient_kind: io::ErrorKind,
     /// a transient read error: the next poll_read answers Err(kind) once, then carries on
     pub read_err_once: Option<io::ErrorKind>,
     /// the write half answers Ok(0) to every non-empty write (a closed pipe in some transports)
@@ -71,6 +74,7 @@ impl Wire {
             read_err: false,
             read_err_kind: io::ErrorKind::ConnectionReset,
             write_err_kind: io::ErrorKind::BrokenPipe,
+            transient_kind: io::ErrorKind::ConnectionReset,
             read_err_once: None,
             write_zero: false,
             read_waker: None,
